@@ -4,6 +4,8 @@
      {"a":"reset","size":..,"skip":..,"max":..}      new instance
      {"a":"bind","s":ssrc,"nack":bool}  {"a":"unbind","s":ssrc}
      {"a":"recv","s":ssrc,"w":n16}                    a packet was read successfully on stream s
+     {"a":"stale","s":ssrc,"w":n16}                   a straggler was read through the reader of an UNBOUND binding of s
+                                                      (no effect on any stream: the event changes no state)
      {"a":"missing","s":ssrc,"out":[n16..]}           receiveLog.missingSeqNumbers(skip) was called
      {"a":"tick","out":[{"s":ssrc,"nums":[n16..]}..]} one pass of the generator loop wrote these NACKs *)
 EXTENDS NackGen, Json, IOUtils
